@@ -143,6 +143,9 @@ type Case struct {
 	ShareLabels bool `json:"share_labels,omitempty"`
 	// StoreCtx: the storage honours a cancelled context in every callback.
 	StoreCtx bool `json:"store_ctx,omitempty"`
+	// StoreOwnErr: with StoreCtx, the storage reports aborted calls with an error of its
+	// own instead of the context's.
+	StoreOwnErr bool `json:"store_own_err,omitempty"`
 	// QCancel: a "cancel"/"block" fault cancels through the query object (Query.Cancel
 	// called from a storage callback / from another goroutine while the callback is
 	// blocked) instead of through the context given to Exec.
